@@ -244,8 +244,45 @@ def nearest_ok(x, lo, hi):
     return out
 
 
-def run(R, tier):
-    R.configs.append("dflt")
+class Renamed:
+    """a view of a Run that files everything under one rule id of another property (used by C08 for the integer
+    conversion the boolean conversion delegates to)"""
+
+    def __init__(self, R, rule, prefix):
+        self.R, self.rule, self.prefix = R, rule, prefix
+        self.configs = R.configs
+
+    def check(self, cond, rule, key, detail_ok="", detail_bad="", where=None, **kw):
+        return self.R.check(cond, self.rule, self.prefix + key, detail_ok, detail_bad, where=where, **kw)
+
+    def violation(self, rule, key, detail, where=None, **kw):
+        return self.R.violation(self.rule, self.prefix + key, detail, where=where, **kw)
+
+    def ok(self, rule, key, detail="", sample=None):
+        return self.R.ok(self.rule, self.prefix + key, detail, sample)
+
+    def anchor_lost(self, rule, what):
+        return self.R.anchor_lost(self.rule, what)
+
+    def floor(self, rule, what, count, minimum):
+        return None
+
+    def count(self, what, n=1):
+        return None
+
+    def sample(self, s):
+        return None
+
+    def trust(self, *a):
+        return self.R.trust(*a)
+
+    def assume(self, *a):
+        return self.R.assume(*a)
+
+
+def run(R, tier, only=None):
+    if "dflt" not in R.configs:
+        R.configs.append("dflt")
     P = facts.program("dflt")
     u = P.unit("scpi")
     eng = C.engine("dflt", "scpi")
@@ -257,7 +294,7 @@ def run(R, tier):
         R.anchor_lost("R07.6", "variant table of lexical_core::Error")
         return
     inv_discr = [d for d, n in lex_tab.items() if n == "InvalidDigit"][0]
-    convs = {ty: b for ty, b in C.conversions(u) if ty in C.INTS}
+    convs = {ty: b for ty, b in C.conversions(u) if ty in C.INTS and (only is None or ty in only)}
     R.floor("R07.1", "integer conversions", len(convs), 10)
     for ity, b in sorted(convs.items()):
         lo, hi, bits = C.INTS[ity]
